@@ -26,13 +26,17 @@ def replay_native(name, model):
         return True, f"real function raised {type(ex).__name__}: {ex}"
     finally:
         api.statistics, api.filter_row_groups = s0, f0
-    if "c" not in out:
-        return False, f"real function does not list the column: {out!r}"
     try:
         emn = [mn[i] for i in sel] if sel is not None else mn
         emx = [mx[i] for i in sel] if sel is not None else mx
     except IndexError:
         return True, "selected index outside the statistics list"
+    if "c" not in out:
+        cond = (emn and len(emn) == len(emx) and None not in emn + emx and sorted(emn) == emn and sorted(emx) == emx
+                and all(emx[i] < emn[i + 1] for i in range(len(emn) - 1)))
+        if "implies_listed" in name and cond:
+            return True, f"real function does not list the column although min={emn} max={emx} are None-free, ascending and strictly increasing across row groups"
+        return False, f"real function does not list the column: {out!r}"
     bad = (out["c"] != {"min": emn, "max": emx} or None in emn + emx or not emn or len(emn) != len(emx)
            or any(not (emx[a] < emn[b]) for a in range(len(emn)) for b in range(a + 1, len(emn)))
            or sorted(emn) != emn or sorted(emx) != emx)
